@@ -1,6 +1,7 @@
 //! C10 — width / fill / alignment of the pattern encoder on the real crate.
 //! case: ( script pieces target items )
-//!   script : ( n ... )  bytes the sink accepts at its i-th `write` call, cycled; 0 = all; () = all
+//!   script : ( n ... )  bytes the sink accepts at its i-th `write` call, cycled; 0 = all; () = all;
+//!            99 = that call fails with ErrorKind::Interrupted (nothing written; write_all retries)
 //!   pieces : ( xHEX ... ) the `&str` pieces the message's Display impl writes (one write_str each)
 //!   target : xHEX
 //!   items  : ( item ... )
@@ -31,6 +32,10 @@ impl io::Write for ScriptSink {
             self.script[self.calls % self.script.len()]
         };
         self.calls += 1;
+        if wish == 99 {
+            // a signal arrived: nothing was written, the caller (std's write_all) tries again
+            return Err(io::Error::new(io::ErrorKind::Interrupted, "EINTR"));
+        }
         let k = if wish == 0 { buf.len() } else { wish.min(buf.len()) };
         self.out.extend_from_slice(&buf[..k]);
         Ok(k)
